@@ -265,6 +265,10 @@ PROPS = {
         lean_modules=["Vore.Props.C18"],
         theorems=THEOREMS,
         pre=pre,
+        fallback_table="CliExtracted",
+        fallback="the built binary run over the whole flag space (every -replace-mode value incl. empty / lower case / CONFIRM x "
+                 "file sets x output flags x pre-existing files x scenarios) against the library-result model: exit status, "
+                 "stdout, JSON files, directory",
         run=run,
         replay=replay,
         manifest=dict(
